@@ -287,7 +287,8 @@ func (s *Statement) Pipeline(task *pod_info.PodInfo, hostname string, updateTask
 		nextNode:                  hostname,
 		message:                   fmt.Sprintf("Pod %s/%s was pipelined to node %s", task.Namespace, task.Name, node.Name),
 		reverseOperation: func() error {
-			return s.unpipeline(task, previousNode, previousStatus, previousGpuGroup, previousResourceClaimInfo, previousIsVirtualStatus)
+			return s.unpipeline(task, previousNode, previousStatus, previousGpuGroup, previousResourceClaimInfo,
+				previousIsVirtualStatus, isSharedAndMoveToDifferentGPU)
 		},
 	})
 	task.IsVirtualStatus = true
@@ -441,7 +442,7 @@ func (s *Statement) commitPipeline(task *pod_info.PodInfo, message string) {
 func (s *Statement) unpipeline(
 	task *pod_info.PodInfo, previousNode string, previousStatus pod_status.PodStatus, previousGpuGroups []string,
 	previousResourceClaimInfo bindrequest_info.ResourceClaimInfo,
-	previousIsVirtualStatus bool) error {
+	previousIsVirtualStatus bool, movedToDifferentGPU bool) error {
 	// Only update status in session
 	job, found := s.ssn.ClusterInfo.PodGroupInfos[task.Job]
 	if found {
@@ -465,6 +466,11 @@ func (s *Statement) unpipeline(
 		if err := node.RemoveTask(task); err != nil {
 			log.InfraLogger.Errorf("Failed to unpipeline task <%v/%v> from node <%v> in Session <%v>: %v",
 				task.Namespace, task.Name, hostname, s.sessionID, err)
+		}
+		if movedToDifferentGPU {
+			// The resources of the task on its previous GPU were kept on the node when it was moved
+			// (ConsolidateSharedPodInfoToDifferentGPU), only its entry was replaced: put the entry back.
+			node.RestoreSharedPodInfoOnPreviousGPU(task)
 		}
 	} else {
 		log.InfraLogger.Errorf("Failed to find Node <%s> in Session <%s> index when binding.",
